@@ -151,6 +151,15 @@ def answer (line : String) : String :=
   if line == "?understood" then
     (if NA.Gen.NewPolicy.understood then "1" else "0 " ++ NA.Gen.NewPolicy.problem)
   else
+  if line == "?writers" then
+    -- source lines of the commands of the regenerated program that have an effect on the database in
+    -- the model (`Cmd.mutating`; `exec_nonmut`, `nonmut_writes`: all other commands leave it alone)
+    " ".intercalate ((NA.Gen.NewPolicy.prog.filter fun i => i.cmd.mutating).map fun i => toString i.line).eraseDups
+  else
+  if line == "?children" then
+    -- … and of the commands whose work is done by a child process (`Cmd.external`)
+    " ".intercalate ((NA.Gen.NewPolicy.prog.filter fun i => i.cmd.external).map fun i => toString i.line).eraseDups
+  else
   match line.splitOn "|" with
   | [se, evs] =>
     let rec go (s : State) (acc : List String) : List String → String
